@@ -177,6 +177,11 @@ any value source) is `ReplaySafe`. -/
 theorem replaySafe_satisfiable (proposer : Nat → Bool) (app : Nat → Nat) :
     ReplaySafe (toyMachine proposer app) := toy_replaySafe proposer app
 
+/-- `ReplaySafe` and `NoEquivocation` are jointly satisfiable (by the machine that ignores every
+input — a weak witness; `NoEquivocation` of a machine that votes is C12's `no_double_vote`). -/
+theorem hypotheses_jointly_satisfiable : ReplaySafe idleMachine ∧ NoEquivocation idleMachine :=
+  ⟨idle_replaySafe, idle_noEquivocation⟩
+
 /-! ## Part 3 — the defect: the proposer's own value is not in the log
 
 `no_conflicting_vote_after_recovery` needs that the machine used after the restart is the SAME
@@ -195,6 +200,23 @@ theorem conflicting_prevote_when_value_source_changes :
     let pre := (liveRun M (M.init 4) [Input.start]).2
     ∃ v ∈ votesOf pre, ∃ w ∈ votesOf (recover M' (applyEffects (Node.fresh 3) pre)).2.1,
       v.conflicts w := by
+  decide
+
+/-- **Second witness: a `Start` entry that carries the next height.** `ReplaySafe.logged_or_inert`
+demands that the entry of a `start` carries the height being started. The real `ProcessStart`
+logs a POINTER to its height field; when the same call already commits the height, the entry is
+written with the next height (harness sig `start-entry-logged-with-next-height`, fix in
+`proposed-fixes/C13-start-entry-aliases-height.diff`). On the model: with the aliased entry the
+log keeps a `Start` for the next height after the prune, the restarted node replays it (here it
+even commits once more) and does NOT end in the state of the uncrashed run; with the entry
+carrying the started height it does. -/
+theorem start_entry_with_next_height_breaks_replay :
+    let M := eagerMachine true
+    let M' := eagerMachine false
+    let n := applyEffects (Node.fresh 3) (liveRun M (M.init 4) [Input.start]).2
+    let n' := applyEffects (Node.fresh 3) (liveRun M' (M'.init 4) [Input.start]).2
+    (recover M n).1 ≠ (liveRun M (M.init 4) [Input.start]).1 ∧
+    (recover M' n').1 = (liveRun M' (M'.init 4) [Input.start]).1 := by
   decide
 
 -- non-vacuity / sanity of the definitions on concrete runs
